@@ -36,12 +36,17 @@ def classify(r):
         s = r["case"]["shape"]
         if what.startswith("error at read-output") and s["extra"] == "nullref" and enc:
             return "encrypt-unreadable|ref-to-free-object"
+        if s.get("inenc", "none") != "none" and s.get("rewrite", "none") != "none" and s["mode"] == "plain" and "(second write)" in what:
+            # WriteContext encrypts the strings of the context's own objects in place; a second write encrypts them again
+            return "rewrite-encrypted-context|strings-encrypted-twice"
         if s["inobjstm"]:
             # objects met inside an input object stream and never parsed are copied raw: children not written, strings not encrypted
             return "lazy-objstm|" + ("not-encrypted" if enc else "children-lost")
         if cfg["eol"] == "CR" and (enc or (s["extra"] == "stream" and s["filter"] == "none")) and not what.startswith("error at write"):
             return "stream-shift|eol=CR"
-        return "gen|%s|extra=%s|mode=%s|enc=%s|eol=%s" % (what[:40], s["extra"], s["mode"], cfg["enc"], cfg["eol"])
+        return "gen|%s|extra=%s|mode=%s|enc=%s|eol=%s|inenc=%s|rewrite=%s" % (
+            what[:32] + ("(2nd)" if "(second write)" in what else ""), s["extra"], s["mode"], cfg["enc"], cfg["eol"],
+            s.get("inenc", "none"), s.get("rewrite", "none"))
     if cfg["eol"] == "CR" and not what.startswith("error at write") and (
             enc or re.search(r"data:(\d+):\w+  =/=  \d+: .*data:\1:", r.get("detail", ""))):
         return "stream-shift|eol=CR"
@@ -50,7 +55,7 @@ def classify(r):
 
 def nontrivial(s):
     inh = any(r == -1 for r in s["pagerot"]) and (s["rootrot"] != -1 or s["midrot"] != -1)
-    return inh or s["extra"] != "none" or s["res"] == "inherited" or s["sharedcontent"] or s["tree"] == "mid" or s["inobjstm"]
+    return inh or s["extra"] != "none" or s["res"] == "inherited" or s["sharedcontent"] or s["tree"] == "mid" or s["inobjstm"] or s.get("inenc", "none") != "none" or s.get("rewrite", "none") != "none"
 
 
 def run(ctx):
